@@ -1,4 +1,4 @@
-import PyrollModel.HookOps
+import PyrollModel.HookUse
 import PyrollModel.Proto
 open Proto
 
@@ -13,7 +13,14 @@ open Proto
     rm <c> <id>                           ok | AttributeError
     fns <c>                               <id list> | AttributeError
     read <c>                              <v|_> <trace>
-    obs <n>                               for the classes 0..n-1:  own|fw;w;lw;ff;f;lf
+    add <c> <tier> 0 need <v> <0|1>       ok <id> | AttributeError     (plain implementation that needs the input; 1: takes `cycle`)
+    add <c> <tier> 1 wneed <k> <d|_>      ok <id> | AttributeError     (wrapper `wrap k d` that reads the input before its yield)
+    obj <o> <c>                           ok          object #o of class c, kept; no input
+    oinp <o> <0|1|2>                      ok          input removed / unusable / supplied
+    oread <o>                             <v|_|E> <trace>        `o.h`   (E: the ValueError of an implementation came out)
+    ohas <o>                              <1|0|E> <trace>        `o.has_value("h")`
+    oreval <o>                            <v|_|A|E|nocache> <trace>   `o.reevaluate_cache()`, v = what is cached afterwards
+    obs <n>                               for the classes 0..n-1:  own|fw;w;lw;ff;f;lf    then ` | c:<ids marked active>`
 -/
 
 namespace Hooks
@@ -86,23 +93,68 @@ def answer (st : State) : Op → String
     " ".intercalate (showOptNat r.1 :: r.2.map showEv)
   | _ => "ok"
 
-def handle (st : State) (line : String) : State × String :=
-  match toks line with
-  | ["reset"] => (init, "ok")
-  | ["obs", n] => match nat? n with
-    | some n => (st, dump st n)
-    | none => (st, "bad-op")
-  | t => match parseOp t with
-    | some op => (step st op, answer st op)
-    | none => (st, "bad-op")
+/-- what a use of the object `ob` answers (computed on the state BEFORE the step) -/
+def useAnswer (u : UState) (ob : Obj) (op : UOp) : String :=
+  if computes ob op then
+    let r := evalObj u ob
+    let head := match op, r.res with
+      | .has _, .val (some _) => "1"
+      | .has _, .val none => "0"
+      | .has _, .err true => "0"
+      | .reeval _, .err true => "A"
+      | _, .val v => showOptNat v
+      | _, .err true => "_"
+      | _, .err false => "E"
+    " ".intercalate (head :: r.tr.map showEv)
+  else match op, ob.cache with
+    | .reeval _, _ => "nocache"
+    | .has _, _ => "1"
+    | _, some (some v) => toString v
+    | _, _ => "_"
 
-partial def loop (h : IO.FS.Stream) (st : State) : IO Unit := do
+def uanswer (u : UState) : UOp → String
+  | .reg op => answer u.reg op
+  | .addNeed c t v _ => answer u.reg (.add c t false (.ret (some v)))
+  | .addNeedW c t k d => answer u.reg (.add c t true (.wrap k d))
+  | .newObj _ _ => "ok"
+  | .setInp _ _ => "ok"
+  | .get o => match findObj u.objs o with
+    | some ob => useAnswer u ob (.get o)
+    | none => "no-object"
+  | .has o => match findObj u.objs o with
+    | some ob => useAnswer u ob (.has o)
+    | none => "no-object"
+  | .reeval o => match findObj u.objs o with
+    | some ob => useAnswer u ob (.reeval o)
+    | none => "no-object"
+
+def parseUOp : List String → Option UOp
+  | ["add", c, t, "0", "need", v, a] => do pure (.addNeed (← nat? c) (← tier? t) (← nat? v) (← bool? a))
+  | ["add", c, t, "1", "wneed", k, d] => do pure (.addNeedW (← nat? c) (← tier? t) (← nat? k) (← optNat? d))
+  | ["obj", o, c] => do pure (.newObj (← nat? o) (← nat? c))
+  | ["oinp", o, s] => do pure (.setInp (← nat? o) (← nat? s))
+  | ["oread", o] => do pure (.get (← nat? o))
+  | ["ohas", o] => do pure (.has (← nat? o))
+  | ["oreval", o] => do pure (.reeval (← nat? o))
+  | t => (parseOp t).map .reg
+
+def handle (u : UState) (line : String) : UState × String :=
+  match toks line with
+  | ["reset"] => (uinit, "ok")
+  | ["obs", n] => match nat? n with
+    | some n => (u, dump u.reg n ++ " | c:" ++ showNatList (u.marks.map (·.1)))
+    | none => (u, "bad-op")
+  | t => match parseUOp t with
+    | some op => (ustep u op, uanswer u op)
+    | none => (u, "bad-op")
+
+partial def loop (h : IO.FS.Stream) (u : UState) : IO Unit := do
   let line ← h.getLine
   if line.isEmpty then return ()
-  let (st', out) := handle st (line.trimAscii.toString)
+  let (u', out) := handle u (line.trimAscii.toString)
   IO.println out
-  loop h st'
+  loop h u'
 
-def main : IO Unit := do loop (← IO.getStdin) init
+def main : IO Unit := do loop (← IO.getStdin) uinit
 
 end Hooks
